@@ -359,11 +359,12 @@ func indexByte(s string, b byte) int {
 func totalFanout(g *FG, x *GNode) (bool, string) {
 	// find the innermost range/for body block whose statement encloses x
 	var body *GNode
-	var bestSpan token.Pos = 1 << 40
+	bestSpan := 1 << 40
 	for b, h := range g.head {
 		k := b.Kind.String()
-		if (k == "RangeBody" || k == "ForBody") && b.Stmt != nil && b.Stmt.Pos() <= x.N.Pos() && x.N.End() <= b.Stmt.End() {
-			if span := b.Stmt.End() - b.Stmt.Pos(); span < bestSpan {
+		// containment in the syntax tree, not by source position (a body with expanded helpers mixes positions)
+		if (k == "RangeBody" || k == "ForBody") && b.Stmt != nil && containsNoLit(b.Stmt, x.N) {
+			if span := nodeCount(b.Stmt); span < bestSpan {
 				bestSpan, body = span, h
 			}
 		}
